@@ -11,6 +11,7 @@ import (
 	"encoding/json"
 	"flag"
 	"fmt"
+	"go/ast"
 	"os"
 	"path/filepath"
 	"runtime/debug"
@@ -196,22 +197,73 @@ func runRules(r *Run, names []string) (ris []*ruleInfo) {
 				}
 			}()
 			before := len(r.Obs)
-			ri.Fn(r)
-			if r.Tier == "thorough" && ri.Thorough != nil {
-				ri.Thorough(r)
+			runView := func() {
+				ri.Fn(r)
+				if r.Tier == "thorough" && ri.Thorough != nil {
+					ri.Thorough(r)
+				}
+				if scope != "" {
+					kept := r.Obs[:before]
+					for _, o := range r.Obs[before:] {
+						if strings.HasPrefix(o.Where, scope+"/") {
+							kept = append(kept, o)
+						}
+					}
+					r.Obs = kept
+				}
 			}
-			if scope != "" {
-				kept := r.Obs[:before]
+			alarmed := func() bool {
 				for _, o := range r.Obs[before:] {
-					if strings.HasPrefix(o.Where, scope+"/") {
-						kept = append(kept, o)
+					if o.st != OK {
+						return true
 					}
 				}
-				r.Obs = kept
+				return len(r.Obs)-before < ri.Floor
+			}
+			seenBefore := map[string]bool{}
+			for k, v := range r.seen {
+				seenBefore[k] = v
+			}
+			runView()
+			// Two views of a refactored tree. Substituting extracted helpers (inline.go) exists to take false alarms away; where
+			// a rule is not satisfied on the substituted tree but is on the tree as it was written, the rule has recognised its
+			// subject there (by means of its own: helper summaries, call-site lookup) and that verdict stands. A rule that is
+			// dissatisfied with both views reports what it saw on the substituted one.
+			if pre := r.P.PreInline; pre != nil && alarmed() {
+				first := append([]*Ob{}, r.Obs[before:]...)
+				firstSeen := r.seen
+				cur := r.P
+				r.Obs = r.Obs[:before]
+				r.seen = seenBefore
+				switchView(r, pre)
+				func() {
+					defer switchView(r, cur)
+					runView()
+				}()
+				if alarmed() {
+					r.Obs = append(r.Obs[:before], first...)
+					r.seen = firstSeen
+				} else {
+					notes, _ := r.Extra["decided_on_the_tree_as_written"].([]string)
+					r.Extra["decided_on_the_tree_as_written"] = append(notes, n)
+				}
 			}
 		}()
 	}
 	return ris
+}
+
+// switchView makes p the program the rules (and the fact helpers they share) look at.
+func switchView(r *Run, p *Prog) {
+	r.P = p
+	curProg = p
+	factCallExpand = func(call *ast.CallExpr, val bool) []condFact {
+		info := p.InfoAt(call.Pos())
+		if info == nil {
+			return nil
+		}
+		return p.expandBoolFact(info, call, val)
+	}
 }
 
 func runProperty(repo, verif, property, tier string, names []string, goarch string, seed int64, noSelfval bool) int {
